@@ -56,7 +56,7 @@ def plan(tier, seed):
     shards = [("pairs", i) for i in range(24)] + [("inclusion",)]
     shards += [("subsets", 0), ("subsets", 1), ("subsets", 2), ("subsets", 3)]
     shards += [("values", f, L) for f in STRING_FIELDS]
-    shards += [("twice", i) for i in range(4)]
+    shards += [("twice", i) for i in range(4)] + [("crowded", i) for i in range(4)]
     shards += [("blocks", B, part) for B in blocks.BLOCKS for part in range(4)]
     shards += [("adversarial",), ("samevalue", 0), ("samevalue", 1), ("samevalue", 2)]
     return dict(shards=shards, bounds=dict(alphabet_size=len(A.SIGMA), value_length=L, subset_size=2), budget_s=900)
@@ -117,6 +117,8 @@ def run_shard(shard, ctx):
         _samevalue(ctx, shard[1])
     elif kind == "twice":
         _twice(ctx, shard[1])
+    elif kind == "crowded":
+        _crowded(ctx, shard[1])
     elif kind == "blocks":
         blocks.sweep(ctx, "field-at-block-boundary", _block_text, "Song", blocks=(shard[1],), part=shard[2], parts=4, drop=(), vias=("file",) if shard[1] > 8192 else ("file", "path"))
     else:
@@ -251,6 +253,33 @@ def _twice(ctx, part):
                 for v1, v2 in (("0", "5"), ("00", "7"), ("5", "0")):
                     for tail in ([], [canon(g, 4)]):
                         check_song(ctx, ["Resolution = 192", "%s = %s" % (f, v1)] + tail + ["%s = %s" % (f, v2)], "field %s given twice, first value %s" % (f, v1))
+
+
+def _crowded(ctx, part):
+    """Sections with MORE lines than there are fields: all 24 fields (every rotation, so that each field is last in
+    turn) plus repeated lines of one or two fields in front, in the middle and at the end, plus foreign lines. The
+    first line of every field still decides, every field is still read."""
+    full = [canon(f, 1) if f != "Resolution" else "Resolution = 480" for f in ALL_FIELDS]
+    for r in range(len(full)):
+        if r % 4 != part:
+            continue
+        rot = full[r:] + full[:r]
+        ctx.node()
+        for g in ALL_FIELDS:
+            again = canon(g, 7) if g != "Resolution" else "Resolution = 96"
+            if again in rot:  # Player2 has one canonical spelling here
+                again = "Player2 = bass"
+            i = rot.index(canon(g, 1) if g != "Resolution" else "Resolution = 480")
+            # repeated copies BEHIND the first one only (the first line of a field decides): right behind it, in
+            # the middle of the rest, at the very end - and verbatim repeats of the first line
+            for pos in sorted({i + 1, (i + 1 + len(rot)) // 2, len(rot) - 1}):
+                check_song(ctx, rot[:pos] + [again] + rot[pos:], "all 24 fields plus a second %s line (25 field lines)" % g)
+            check_song(ctx, rot[: i + 1] + [rot[i]] + rot[i + 1 :], "all 24 fields, the %s line written twice verbatim" % g)
+            check_song(ctx, rot[: i + 1] + [again, again] + rot[i + 1 : -1] + [again] + rot[-1:], "all 24 fields plus three more %s lines" % g)
+        noise = ["garbage", "0 = B 120000", "Foo = 3", ""]
+        check_song(ctx, noise + rot, "4 foreign lines in front of all 24 fields")
+        check_song(ctx, rot[:12] + noise * 6 + rot[12:], "24 foreign lines in the middle of all 24 fields")
+        check_song(ctx, [ln for x in rot for ln in (x, "x = y")], "a foreign line behind every one of the 24 fields")
 
 
 def _adversarial(ctx):
